@@ -1,4 +1,5 @@
 import Cello.Dispatch
+import Cello.DispatchId
 import CelloGen.Disp
 import Driver.Common
 /- driver for engine `disp` (C08): executes the op file of harness/h_disp.c on the model `Cello.Dispatch` and prints the
@@ -14,6 +15,11 @@ import Driver.Common
    agree) — a write of `__Name` is seen through every memoised pointer to that address (`Heap.retarget`), which is how the
    model reproduces KF-C08-class-memo-stale; after every such operation inside the theorem's territory (`nameWriteSafe`)
    the executable heap invariant `Heap.okb` must hold again. -/
+/- Mode `heap` of `N`: the address comes from a LIFO pool (what malloc does with a just-freed block): `X` pushes the address,
+   the next `N … heap` pops it — a new type object on the address of a deleted one, storage calloc'ed.  Ops `c d g f`: a
+   dispatching library function / a `method` / `type_method` / `implements_method` call site used on an object of the type
+   (`useW` of Cello/DispatchId.lean, the function of `C08_call_exact` / `C08_history_independent`); the (class, member index,
+   hard|soft) of a function name is read from the SOURCE (CelloGen.Disp.methodSites / instanceSites). -/
 open Cello.Dispatch
 
 namespace DispDrv
@@ -46,6 +52,8 @@ structure St where
   bufs : List (Nat × String) := []              -- the caller's character buffers (op Z): their text now
   nameBuf : List (Nat × Nat) := []              -- provenance of `__Name` cells (XHeap)
   tripleBuf : List ((Nat × Nat) × Nat) := []    -- provenance of triple name words (XHeap)
+  heapFree : List Nat := []       -- mode `heap`: released pool slots, most recently released first
+  heapNext : Nat := 0             -- mode `heap`: number of pool slots handed out so far
 deriving Inhabited
 
 def St.init : St := { h := { w := { slots := slots, theType := 0, types := [] }, names := [] }, kinds := [], rcls := [], syms := [] }
@@ -54,6 +62,13 @@ def St.init : St := { h := { w := { slots := slots, theType := 0, types := [] },
 def clsAddr (k : Nat) : Nat := 1000000 + k
 def arenaAddr (slot : Nat) : Nat := 500000 + slot
 def nSlot : Nat := 8
+def heapAddr (slot : Nat) : Nat := 600000 + slot
+def nPool : Nat := 64
+/-- the pool slot the next `N … heap` gets -/
+def heapSlot (free : List Nat) (next : Nat) : Option Nat :=
+  match free with
+  | sl :: _ => some sl
+  | [] => if next < nPool then some next else none
 def addrOf (s : St) (tid : Nat) : Nat := ((s.addrs.find? (fun p => p.1 = tid)).map (·.2)).getD tid
 def St.w (s : St) : World := s.h.w
 def St.setW (s : St) (w : World) : St := { s with h := { s.h with w := w } }
@@ -86,6 +101,7 @@ def dropType (s : St) (tid : Nat) (release : Bool := false) : St :=
   let a := addrOf s tid
   { s with h := s.h.delete a, aux := s.aux.filter (fun p => p.1 ≠ tid), addrs := s.addrs.filter (fun p => p.1 ≠ tid),
            arena := if release then s.arena.filter (fun sl => arenaAddr sl ≠ a) else s.arena,
+           heapFree := if release && a ≥ heapAddr 0 && a < heapAddr nPool then (a - heapAddr 0) :: s.heapFree else s.heapFree,
            nameBuf := (s.x.forget a).nameBuf, tripleBuf := (s.x.forget a).tripleBuf }
 
 /-- calloc'ed storage of `Type_Alloc` -/
@@ -214,6 +230,31 @@ def selfCheck (t : TypeRec) (op : Op) (t' : Option TypeRec) : Option String :=
     if m = (sc.1, PC.done cls sc.2) then none else some "step machine differs from scan"
   | _ => none
 
+/-- the dispatching functions the harness can call (its table `WLIST`) -/
+def harnessWrappers : List String :=
+  ["call_with", "iter_init", "iter_next", "iter_last", "iter_prev", "iter_type", "push", "pop", "push_at", "pop_at",
+   "get", "set", "mem", "rem", "key_type", "val_type", "len", "c_int", "c_str", "c_float", "ref", "deref", "resize", "append", "concat",
+   "sort_by", "sopen", "sclose", "sseek", "stell", "sflush", "seof", "sread", "swrite", "look_from", "start", "stop", "join", "running",
+   "lock", "unlock", "trylock", "hash", "cmp", "copy", "show_to", "swap", "assign"]
+
+/-- (class name, member index, soft) of a dispatching library function, from the source text -/
+def siteOf (fname : String) : Option (String × Nat × Bool) :=
+  if !harnessWrappers.contains fname then none else
+  match CelloGen.Disp.methodSites.find? (fun p => p.1 = fname) with
+  | some (_, c, _, k) => some (c, k, false)
+  | none =>
+    match CelloGen.Disp.instanceSites.find? (fun p => p.1 = fname) with
+    | some (_, c, _, k) => some (c, k, true)
+    | none => none
+
+def showCall (t : TypeRec) : AObs → String
+  | .call (.ok (.invoked i _)) => s!"#{idx t i}"
+  | .call (.ok .fallback) => "default"
+  | .call (.raised e) => excName e
+  | .call .ub => "ub"
+  | .look (.bool b) => showBool b
+  | _ => "?"
+
 def lcg (x : Nat) : Nat := (x * 6364136223846793005 + 1442695040888963407) % 18446744073709551616
 
 /-- N threads looking the classes up on a cold record, under a pseudo-random interleaving of their atomic steps -/
@@ -277,6 +318,31 @@ def lookupOp (s : St) (op : String) (tid : Nat) (cls : Cls) (k : Nat) : IO St :=
   let s' := s.setW w'
   IO.println s!"O {op} {res}{dump s' tid}"
   return s'
+
+/-- `c d g f <tid> <fn>`: a dispatching function / macro call site used on an object of the run-time type tid -/
+def callOp (s : St) (op : String) (tid : Nat) (fname : String) : IO St := do
+  let a := addrOf s tid
+  match s.w.get a, siteOf fname with
+  | some t, some (cname, k, soft) =>
+    if kindOf s tid ≠ 3 then do bad; return s
+    let cls : Cls := ⟨0, cname⟩
+    let D := declared t.entries
+    -- an out-of-struct member read is never executed; the default code of a soft function is not exercised
+    let wantOk : Bool := match D cname with
+      | some inst => inst.members[k]? = some true
+      | none => false
+    let outside : Bool := match D cname with
+      | some inst => k ≥ inst.members.length
+      | none => false
+    if outside || (op = "c" && soft && !wantOk) then do bad; return s
+    let way : Way := if op = "c" then .call soft k else if op = "d" then .call false k else if op = "g" then .typeCall k else .look (.implMeth k)
+    let r := useW s.w a way cls
+    if invb slots t && r.2 ≠ specUse t.sentinel D way cls then
+      IO.println s!"O MODEL-INCONSISTENT {op} the use differs from specUse of the declaration"
+    let s' := s.setW r.1
+    IO.println s!"O {op} {showCall t r.2}{dump s' tid}"
+    return s'
+  | _, _ => do bad; return s
 
 /-- after an operation that changes which type objects exist or how they are named: inside the territory of
     `C08_world_history` (the write of the name was `safe` and the heap satisfied `okb`) the heap must satisfy `okb` again -/
@@ -382,15 +448,16 @@ def main (args : List String) : IO Unit := do
         match tidS.toNat?, rest with
         | some tid, name :: sizeS :: rowToks =>
           let memO : Option (List Word) :=
-            if sym = "junk" || sym = "arena" then some junkMem else if ["raw", "root", "gc", "alloc"].contains sym then some zeroMem else none
+            if sym = "junk" || sym = "arena" then some junkMem else if ["raw", "root", "gc", "alloc", "heap"].contains sym then some zeroMem else none
           match sizeS.toNat?, parseRow rowToks, memO with
           | some size, some row, some mem =>
             match namedRow s row, refRow s row, nameArg s name with
             | some named, some refs, some (na, name) =>
               let slot := (List.range nSlot).find? (fun sl => !s.arena.contains sl)
               if tid ≥ maxT || rowToks.length > maxRow || size > 1000000 || (kindOf s tid = 3 && row.any (fun p => p.1 = s!"t.{tid}"))
-                  || (sym = "arena" && slot.isNone) then bad
+                  || (sym = "arena" && slot.isNone) || (sym = "heap" && (heapSlot s.heapFree s.heapNext).isNone) then bad
               else
+                let hslot := (heapSlot s.heapFree s.heapNext).getD 0
                 let es := mkEntries named s.nextId
                 s := { s with nextId := s.nextId + row.length + 1 }
                 if kindOf s tid = 3 then s := setKind (dropType s tid) tid 0     -- abandoned: as good as deleted
@@ -398,12 +465,17 @@ def main (args : List String) : IO Unit := do
                 | (some st, .ok _) =>
                   if st.trec ≠ mkType CelloGen.Disp.cacheNum true es || !invb slots st.trec then
                     IO.println "O MODEL-INCONSISTENT N the constructed record is not the fresh record of the instance list"
-                  let addr := if sym = "arena" then arenaAddr (slot.getD 0) else s.nextAddr
-                  s := if sym = "arena" then { s with arena := slot.getD 0 :: s.arena } else { s with nextAddr := s.nextAddr + 1 }
+                  let addr := if sym = "arena" then arenaAddr (slot.getD 0) else if sym = "heap" then heapAddr hslot else s.nextAddr
+                  s := if sym = "arena" then { s with arena := slot.getD 0 :: s.arena }
+                       else if sym = "heap" then (match s.heapFree with | _ :: rest => { s with heapFree := rest } | [] => { s with heapNext := s.heapNext + 1 })
+                       else { s with nextAddr := s.nextAddr + 1 }
                   s ← installType s "N" tid addr na refs name es st
                   IO.println s!"O N {tid} n={row.length} ok{dump s tid} z={tailCount st.rest}"
                 | (_, .raised e) =>
                   s := setKind s tid 0
+                  -- mode heap: the block `Type_Alloc` took is never released (the constructor raised): its address is gone for good
+                  if sym = "heap" then
+                    s := (match s.heapFree with | _ :: rest => { s with heapFree := rest } | [] => { s with heapNext := s.heapNext + 1 })
                   IO.println s!"O N {tid} n={row.length} {excName e}"
                 | _ => IO.println s!"O N {tid} n={row.length} ub"
             | _, _, _ => bad
@@ -528,6 +600,10 @@ def main (args : List String) : IO Unit := do
               IO.println s!"O H n={nth * rounds * classes.length} bad=0{dump s tid false}"
           | _, _, _ => bad
         | _, _, _ => bad
+      else if ["c", "d", "g", "f"].contains op && rest.isEmpty then
+        match tidS.toNat? with
+        | some tid => s ← callOp s op tid sym
+        | none => bad
       else if ["I", "P", "i", "p", "J"].contains op && rest.isEmpty then
         match tidS.toNat?, clsOf s sym with
         | some tid, some cls =>
